@@ -490,4 +490,25 @@ theorem placed_explicit {lo hi : Nat} {vs : List Visit} (h : Placed lo vs hi) :
       obtain ⟨_, _, c, _, _⟩ := ih1 b hb
       exact c
 
+theorem record_placed (fs : Tys) (L : Layout) (h : layoutOf (.record fs) = some L) :
+    ∃ vs, placement fs 0 LayoutBuilder.new = some vs ∧ vs.length = fs.length ∧ Placed 0 vs L.size := by
+  cases hb : buildFields fs LayoutBuilder.new with
+  | none => simp [layoutOf, hb] at h
+  | some b =>
+    simp [layoutOf, hb] at h; subst h
+    obtain ⟨vs, hvs⟩ := buildFields_placement fs 0 _ b hb
+    obtain ⟨b', hb', hp, hlen⟩ := placement_placed fs 0 _ vs hvs
+    rw [hb] at hb'; cases hb'
+    exact ⟨vs, hvs, hlen, placed_mono hp (Nat.zero_le _) (finish_size_ge b)⟩
+
+theorem variant_placed (vs : Vars) (L : Layout) (h : layoutOf (.enum vs) = some L)
+    (k : Nat) (fields : Tys) (hk : vs.get? k = some fields) (ls : List (Ty × Layout))
+    (hinh : collectLayouts fields = some ls) :
+    ∃ ps, placement fields 0 variantStart = some ps ∧ ps.length = fields.length ∧ Placed 1 ps L.size := by
+  obtain ⟨ps, hps⟩ := collectLayouts_placement fields 0 variantStart ls hinh
+  obtain ⟨b', hb', hp, hlen⟩ := placement_placed fields 0 _ ps hps
+  have hge := (enumLayout_ge vs none L (by simpa [layoutOf] using h)).2 k fields b' hk hb'
+  exact ⟨ps, hps, hlen,
+    placed_mono hp (by rw [variantStart_eq]; exact Nat.le_refl _) (Nat.le_trans (finish_size_ge b') hge)⟩
+
 end RotoV.Layout
